@@ -114,6 +114,12 @@ Theorem C05_reshape_wf : forall newdims a r,
   WF a -> groups_ok a -> ~ In "" (flat_map split_commas newdims) -> reshape newdims a = Ok r -> WF r.
 Proof. exact reshape_wf. Qed.
 Print Assumptions C05_reshape_wf.
+(* without any condition on the state: programs over every operation but the in-place rename of one axis, unflatten and
+   grouped reshape (new dimension names non-empty), with ANY arguments *)
+Theorem C05_program_wf_static : forall ins ops a v,
+  Forall WF ins -> WF a -> forallb static_op ops = true -> run_ops ins ops a = Ok v -> WFv v.
+Proof. exact run_ops_wf_static. Qed.
+Print Assumptions C05_program_wf_static.
 (* the side condition on renaming is necessary: the faithful model (like the code) accepts a sibling's name *)
 Theorem C05_rename_sibling_refuted :
   exists a r n v, WF a /\ apply_op [] (ORenameAxis r n) a = Ok (VArr v) /\ wfb v = false.
@@ -155,6 +161,8 @@ Proof.
 Qed.
 Definition ex_prog2 : list op :=
   [ONewaxis "z" None 0; OReduce RSum false (AxMany [ByName "z"; ByName "u"]); OPercentile [1#2; 1#1]%Q false KF (AxOne (ByName "t"))].
+Example C05_static_nonvacuous : forallb static_op ex_prog2 = true /\ forallb static_op [OSortAxis (ByName "t"); OTranspose []; OSetAxis (ByPos 0) KI [L_ 7; L_ 8] (Some "w")] = true.
+Proof. split; reflexivity. Qed.
 Example C05_grouped_nonvacuous :
   prog_covered [] ex_prog2 ex3 = true /\
   exists r, run_ops [] ex_prog2 ex3 = Ok (VArr r) /\ dims r = ["t_percentile"] /\ dat (vals r) = [CNum (280 # 200); CNum (180 # 100)].
